@@ -23,7 +23,7 @@ VERIF = os.path.dirname(os.path.dirname(os.path.abspath(__file__)))
 
 # wrappers around a read that only change how the bytes are displayed (the model keeps the raw bytes and applies them when rendering;
 # the wrapper texts themselves are pinned by the layout tables of extract_layouts.py)
-DISPLAY_WRAPPERS = ("bytes.decode(%s).strip('\\x00')",)
+DISPLAY_WRAPPERS = ("bytes.decode(%s).strip('\\x00')", "bytes.decode(%s).rstrip('\\x00')")
 
 TARGETS = [
     # label, file, class, function, name of the stream parameter
@@ -32,7 +32,15 @@ TARGETS = [
     ("fru", "modules/pel/peltool/src.py", "FRUIdentity", "__init__", "stream"),
     ("pce", "modules/pel/peltool/src.py", "PCEIdentity", "__init__", "stream"),
     ("mru", "modules/pel/peltool/src.py", "MRU", "__init__", "stream"),
+    # a toJSON method that reads self.stream and then only builds its display (stream-free statements, `return out`)
+    ("lp", "modules/pel/peltool/imp_partition.py", "ImpactedPartition", "toJSON", "self.stream"),
+    # the length-driven consumers: constructors that take the section header fields as further parameters
+    ("ud", "modules/pel/peltool/user_data.py", "UserData", "__init__", "stream"),
+    ("ed", "modules/pel/peltool/ext_user_data.py", "ExtUserData", "__init__", "stream"),
+    ("dflt", "modules/pel/peltool/default.py", "Default", "__init__", "stream"),
 ]
+# wrappers around an integer read that only change how it is displayed
+INT_WRAPPERS = ("chr(%s)",)
 # a constructor made of a straight part and one final `while` loop: head, loop condition and loop body are emitted separately
 SPLIT_TARGETS = [
     ("callout", "modules/pel/peltool/src.py", "Callout", "__init__", "stream"),
@@ -66,14 +74,24 @@ class Tr:
         self.unknown = []
         self.in_loop = False
         self.is_init = False
+        self.is_tojson = False
+        self.depth = 0
+        self.alias = False
+        self.int_vars = set()       # variables assigned from stream.get_int so far
         self.peek_ok = False        # the module's get_value is int.from_bytes(data[start:start + end], byteorder='big')
         self.records = set()        # classes whose constructor just stores its parameters, in order
 
     def is_stream(self, e):
+        if self.alias and isinstance(e, ast.Attribute) and e.attr == "stream" and isinstance(e.value, ast.Name) and e.value.id == "self":
+            return True                              # the constructor has kept its stream parameter in self.stream
+        if self.stream == "self.stream":
+            return isinstance(e, ast.Attribute) and e.attr == "stream" and isinstance(e.value, ast.Name) and e.value.id == "self"
         return isinstance(e, ast.Name) and e.id == self.stream
 
     def var(self, e):
         """name of a variable reference: self.<x> -> 'self.x', local -> 'x'"""
+        if self.is_stream(e):
+            return None
         if isinstance(e, ast.Attribute) and isinstance(e.value, ast.Name) and e.value.id == "self":
             return "self." + e.attr
         if isinstance(e, ast.Name) and e.id != self.stream:
@@ -127,8 +145,10 @@ class Tr:
             for v in reversed(e.values[:-1]):
                 out = "(%s %s %s)" % (k, self.cond(v), out)
             return out
-        if isinstance(e, ast.BinOp) and isinstance(e.op, ast.BitAnd):
+        if isinstance(e, ast.BinOp) and isinstance(e.op, (ast.BitAnd, ast.Mod)):
             return "(CTruthy %s)" % self.ex(e)
+        if self.var(e) is not None and self.int_vars is not None and self.var(e) in self.int_vars:
+            return "(CTruthy %s)" % self.ex(e)           # an integer read from the stream used as a condition
         if isinstance(e, ast.Compare) and len(e.ops) == 1:
             k = {ast.Gt: "CGt", ast.Lt: "CLt", ast.Eq: "CEq", ast.NotEq: "CNe"}.get(type(e.ops[0]))
             if k:
@@ -194,6 +214,9 @@ class Tr:
             return "TContinue"
         if isinstance(st, ast.Break):
             return "TBreak"
+        if (isinstance(st, ast.Return) and self.is_tojson and self.depth == 0 and st.value is not None
+                and not any(self.is_stream(n) for n in ast.walk(st.value))):
+            return "TNop"                            # the final `return out` of a toJSON method
         if isinstance(st, ast.Return) and st.value is None and self.is_init:
             return "(TRet false)"                    # an early `return` of a constructor
         if isinstance(st, ast.AugAssign) and isinstance(st.op, (ast.Add, ast.Sub)) and self.var(st.target) is not None:
@@ -203,15 +226,19 @@ class Tr:
             if isinstance(st.value, ast.Constant) and isinstance(st.value.value, bool):
                 return "(TRet %s)" % ("true" if st.value.value else "false")
             raise Unsupported("return of something other than True / False")
-        if isinstance(st, ast.If) and self.stream_call(st.test, "check_range"):
-            # if stream.check_range(e): A  else: B   is   if not stream.check_range(e): B  else: A
-            return "(TIf (CNoRange %s) %s %s)" % (self.ex(st.test.args[0]), self.block(st.orelse), self.block(st.body))
         if isinstance(st, ast.If):
-            return "(TIf %s %s %s)" % (self.cond(st.test), self.block(st.body), self.block(st.orelse))
+            self.depth += 1
+            try:
+                if self.stream_call(st.test, "check_range"):
+                    # if stream.check_range(e): A  else: B   is   if not stream.check_range(e): B  else: A
+                    return "(TIf (CNoRange %s) %s %s)" % (self.ex(st.test.args[0]), self.block(st.orelse), self.block(st.body))
+                return "(TIf %s %s %s)" % (self.cond(st.test), self.block(st.body), self.block(st.orelse))
+            finally:
+                self.depth -= 1
         if (isinstance(st, ast.Expr) and isinstance(st.value, ast.Call) and isinstance(st.value.func, ast.Attribute)
-                and st.value.func.attr == "append" and isinstance(st.value.func.value, ast.Name) and len(st.value.args) == 1
+                and st.value.func.attr == "append" and self.var(st.value.func.value) is not None and len(st.value.args) == 1
                 and self.stream_call(st.value.args[0], "get_int") and not st.value.keywords):
-            return "(TAppendInt %s %s)" % (T(st.value.func.value.id), self.ex(st.value.args[0].args[0]))
+            return "(TAppendInt %s %s)" % (T(self.var(st.value.func.value)), self.ex(st.value.args[0].args[0]))
         if isinstance(st, ast.Expr) and self.stream_call(st.value, "inc_index"):
             return "(TSkip %s)" % self.ex(st.value.args[0])
         if isinstance(st, ast.For):
@@ -230,7 +257,15 @@ class Tr:
                 a, b = st.body[0].value.args
                 return "(TRepeat %s (TAppendPair %s %s %s))" % (self.ex(it.args[0]), T(self.var(st.body[1].value.func.value)),
                                                                   self.ex(a.args[0]), self.ex(b.args[0]))
+            if (isinstance(it, ast.Call) and isinstance(it.func, ast.Name) and it.func.id == "range" and len(it.args) == 1 and not st.orelse
+                    and not it.keywords and isinstance(st.target, ast.Name)
+                    and not any(isinstance(n, ast.Name) and n.id == st.target.id for b in st.body for n in ast.walk(b))):
+                return "(TRepeat %s %s)" % (self.ex(it.args[0]), self.block(st.body))
             raise Unsupported("a for loop outside the fragment")
+        if (isinstance(st, ast.Assign) and len(st.targets) == 1 and ast.unparse(st.targets[0]) == "self.stream"
+                and isinstance(st.value, ast.Name) and st.value.id == self.stream and self.is_init and self.depth == 0):
+            self.alias = True
+            return "TNop"
         if isinstance(st, ast.Assign) and len(st.targets) == 1:
             v = self.var(st.targets[0])
             if (v is not None and isinstance(st.value, ast.Call) and isinstance(st.value.func, ast.Name) and st.value.func.id in CALLEES
@@ -240,9 +275,14 @@ class Tr:
                 raise Unsupported("assignment target outside the fragment: %s" % ast.unparse(st.targets[0]))
             val = st.value
             if self.stream_call(val, "get_int"):
+                self.int_vars.add(v)
                 return "(TInt %s %s)" % (T(v), self.ex(val.args[0]))
             if self.stream_call(val, "get_mem"):
                 return "(TMem %s %s)" % (T(v), self.ex(val.args[0]))
+            inner_i = [n for n in ast.walk(val) if self.stream_call(n, "get_int")]
+            if len(inner_i) == 1 and val is not inner_i[0] and any(ast.unparse(val) == w % ast.unparse(inner_i[0]) for w in INT_WRAPPERS):
+                self.int_vars.add(v)
+                return "(TInt %s %s)" % (T(v), self.ex(inner_i[0].args[0]))
             if ast.unparse(val) in ("memoryview(b'')", "''"):
                 return "(TEmpty %s)" % T(v)
             inner = [n for n in ast.walk(val) if self.stream_call(n, "get_mem")]
@@ -376,11 +416,15 @@ def main():
             tree = ast.parse(open(os.path.join(ROOT, rel)).read())
             f, consts = find(tree, cls, fn)
             params = [a.arg for a in f.args.args]
-            if params != ["self", stream]:
+            if params[:2] != ["self", stream] and not (stream == "self.stream" and params == ["self"]):
                 raise Unsupported("%s.%s takes %s" % (cls, fn, params))
+            extra = params[2:] if stream != "self.stream" else []
+            if extra:
+                lines.append("Definition params_%s : list name := [%s]." % (label, "; ".join(T(q) for q in extra)))
             tr = Tr(consts, stream)
             tr.is_init = fn == "__init__"
-            tr.in_loop = tr.is_init                  # stream-free statements of a constructor (a diagnostic print) have no stream effect
+            tr.is_tojson = stream == "self.stream"
+            tr.in_loop = tr.is_init or tr.is_tojson   # stream-free statements (a diagnostic print, building the display) have no stream effect
             tr.records, tr.peek_ok = module_facts(tree)
             term = tr.block(f.body)
             for u in tr.unknown:
